@@ -113,7 +113,9 @@ def deductive_decomposer(res, agg, tier):
 
 
 # ------------------------------------------------------------------ deductive: EOF algorithms against SVD_k
-def trace_eof(cls, cplx, centred, lazy=False):
+def trace_eof(cls, cplx, centred, lazy=False, augment=False):
+    """augment=True: the instance's _augment_data hook returns an arbitrary complex matrix A of the input's shape and
+    labels (all the contract says about an augmentation); every clause is then stated over A"""
     names, xrf, npf = std_names(Decomposer=DecomposerStub)
 
     def run():
@@ -125,8 +127,18 @@ def trace_eof(cls, cplx, centred, lazy=False):
         if centred:
             from vf.sym.core import ctx
             ctx().hyps.append((tm.mul(tm.J(n), X.term), X.term, "precondition: X has zero column means"))
+        if augment:
+            A = mk_da("A", (S, F), (n, p), cplx=True, lazy=lazy, owner="augmentation")
+            A._cid = dict(X._cid)
+            if centred:
+                from vf.sym.core import ctx
+                ctx().hyps.append((tm.mul(tm.J(n), A.term), A.term, "precondition: the augmented matrix has zero column means"))
+            m._augment_data = lambda X_: A
         eofmod.EOF._fit_algorithm(m, X)
-        Z = m._transform_algorithm(X)
+        if augment:
+            X, Z = A, None
+        else:
+            Z = m._transform_algorithm(X)
         ratio = m.explained_variance_ratio()
         # reconstruction from the first kp modes (kp symbolic, 1..k)
         kp = PNum(z3.Int("kp"))
@@ -142,12 +154,13 @@ def trace_eof(cls, cplx, centred, lazy=False):
 
 
 def deductive_eof(res, agg, tier):
-    for cls, cplx in ((xeofs.single.EOF, False), (xeofs.single.ComplexEOF, True), (xeofs.single.ComplexEOF, False)):
+    for cls, cplx, augment in ((xeofs.single.EOF, False, False), (xeofs.single.ComplexEOF, True, False), (xeofs.single.ComplexEOF, False, False),
+                               (xeofs.single.EOF, False, True)):
         for centred in (True, False):
-            cfg = f"{cls.__name__},{'complex' if cplx else 'real'},{'centred' if centred else 'uncentred'}"
+            cfg = f"{cls.__name__},{'complex' if cplx else 'real'},{'centred' if centred else 'uncentred'}" + (",augmented" if augment else "")
             fn = "EOF._fit_algorithm"
             try:
-                paths = trace_eof(cls, cplx, centred)
+                paths = trace_eof(cls, cplx, centred, augment=augment)
             except PathLimit as e:
                 res.undecided_reasons.append(f"{fn}[{cfg}]: {e}")
                 continue
@@ -190,8 +203,9 @@ def deductive_eof(res, agg, tier):
                         f"{comps._cid} {scores._cid}"), cfg)
                     agg.vc(fn, "input_data stored, not computable", struct_vc(
                         d["input_data"].term is X.term and d._allow_compute["input_data"] is False, "input_data"), cfg)
-                    vc("C04: transform(fit matrix) = scores", Z.term, scores.term, "EOF._transform_algorithm")
-                    agg.vc("EOF._transform_algorithm", "dims", struct_vc(Z.dims == (S, "mode"), str(Z.dims)), cfg)
+                    if Z is not None:
+                        vc("C04: transform(fit matrix) = scores", Z.term, scores.term, "EOF._transform_algorithm")
+                        agg.vc("EOF._transform_algorithm", "dims", struct_vc(Z.dims == (S, "mode"), str(Z.dims)), cfg)
                     # truncated reconstruction = U_k' s_k' V_k'^H (rank-k' truncated SVD; optimality = Eckart-Young, axiom)
                     ke = tm.ext_of(kp.z)
                     E = tm.sel(k, ke)
@@ -250,6 +264,10 @@ def eval_case(c):
         if not c.get("coslat"):
             lat = None
     m = cls(**kw).fit(da, "time", weights=W) if W is not None else cls(**kw).fit(da, "time")
+    if c.get("queried"):
+        # read-only queries in their other scalings come first: the model's answers afterwards are still the property's
+        m.components(normalized=False)
+        m.scores(normalized=True)
     tol = 1e-8 if c["solver"] == "full" else 2e-4
     Zd = m.data["input_data"]
     if c["model"] in ("EOF", "ComplexEOF"):
@@ -345,7 +363,10 @@ def bounded_cases(tier, seed):
         for (nn, pp) in ((20, 4), (30, 6)):
             for k in (1, 2, 3):
                 cases.append(dict(model=model, n=nn, p=pp, spec="random", k=k, solver="full", cplx=False,
-                                  center=True, standardize=False, scale=1.0))
+                                  center=True, standardize=False, scale=1.0, keep=k == 2))
+    for model in ("EOF", "ComplexEOF", "HilbertEOF", "ExtendedEOF"):
+        cases.append(dict(model=model, n=20, p=5, spec="random", k=3, solver="full", cplx=model == "ComplexEOF", center=True, standardize=False,
+                          scale=1.0, queried=True, keep=True))
     for i, c in enumerate(cases):
         c["seed"] = int(seed) * 1000 + i
     # the randomised back ends (sklearn randomized_svd, scipy svds/lobpcg) are only accurate with a spectral gap
@@ -366,6 +387,8 @@ def run_bounded(res, tier, seed):
             sig["coslat"], sig["weights"] = bool(c.get("coslat")), bool(c.get("weights"))
         sig["shape"] = "n<p" if c["n"] < c["p"] else ("n=p" if c["n"] == c["p"] else ("p=1" if c["p"] == 1 else "n>p"))
         sig["scale"] = c["scale"]
+        if c.get("queried"):
+            sig["queried"] = True
         try:
             ok, detail = eval_case(c)
         except Exception as e:  # noqa: BLE001
